@@ -141,6 +141,11 @@ def make_transform(st, spec, ledger):
             if f.featuretype == spec["from"]:
                 f.featuretype = spec["to"]
             return f
+        if kind == "append_inplace":
+            # edits a value list in place (no assignment through the mapping)
+            if spec["key"] in f.attributes:
+                f.attributes[spec["key"]].append(spec["val"])
+            return f
         if kind == "delete_delivered":
             # the caller modifies the SOURCE database while it is being read: features that were already
             # delivered are deleted from it
@@ -213,8 +218,15 @@ def make_source(st, spec, led_name):
         st.serial += 1
         p = os.path.join(st.world, "in", name + (".gz" if form == "gz" and not name.endswith(".gz") else ""))
         if form == "gz":
-            with gzip.GzipFile(p, "wb", mtime=0) as fh:
-                fh.write(spec["text"].encode("utf-8"))
+            data = spec["text"].encode("utf-8")
+            k = max(1, int(spec.get("members", 1)))
+            lines_ = data.splitlines(True)
+            step = max(1, (len(lines_) + k - 1) // k)
+            with seams._real_open(p, "wb") as raw:
+                for a in range(0, max(1, len(lines_)), step):
+                    # each chunk is a complete gzip member (what `cat a.gz b.gz`, bgzip or appending produces)
+                    with gzip.GzipFile(fileobj=raw, mode="wb", mtime=0) as fh:
+                        fh.write(b"".join(lines_[a:a + step]))
         else:
             with seams._real_open(p, "w", newline="") as fh:
                 fh.write(spec["text"])
